@@ -528,6 +528,10 @@ def getitem(I, o, k, node):
             alts = [c for c in conds] + [miss]
             j = I.ctx.choose(alts)
             if j == len(keys):
+                if getattr(o, "factory", None) is not None:       # defaultdict: a missing key gets the factory's value
+                    v = I.call(o.factory, [], {})
+                    o[k] = v
+                    return v
                 raise PyRaise(ExcValue("KeyError", (k,)))
             return o[keys[j]]
         try:
